@@ -183,17 +183,18 @@ IsReRegistration(cl) ==
 \* is_package_blacklisted(): walk down the blacklist trie, stop at the first leaf
 TrieBlacklistedIn(name, b) == \E n \in 1..Len(name) : SubSeq(name, 1, n) \in b \cup BuiltinPaths
 
-\* iter_packages_trie() + the loop of get_package_conf_or_none(): keep the deepest conf
+\* iter_packages_trie() + the loop of get_package_conf_or_none(): the generator yields the
+\* nodes on the way down and stops at the first missing one; the loop keeps
+\* "conf_if_hooked or <what it had>", i.e. the deepest configuration
 TrieWalkIn(name, w, ns, r) ==
-  LET F[n \in 0..Len(name)] ==
-        IF n = 0 THEN [conf |-> r, alive |-> TRUE]
-        ELSE LET q == SubSeq(name, 1, n)  prev == F[n-1] IN
-             IF ~prev.alive \/ q \notin ns THEN [conf |-> prev.conf, alive |-> FALSE]
-             ELSE [conf |-> IF L("walk_shallow")
-                            THEN (IF prev.conf # NoConf THEN prev.conf ELSE w[q])
-                            ELSE (IF w[q] # NoConf THEN w[q] ELSE prev.conf),
-                   alive |-> TRUE]
-  IN F[Len(name)].conf
+  LET Yielded(n) == \A m \in 1..n : SubSeq(name, 1, m) \in ns
+      F[n \in 0..Len(name)] ==
+        IF n = 0 THEN r
+        ELSE LET q == SubSeq(name, 1, n) IN
+             IF ~Yielded(n) THEN F[n-1]
+             ELSE IF L("walk_shallow") THEN (IF F[n-1] # NoConf THEN F[n-1] ELSE w[q])
+             ELSE (IF w[q] # NoConf THEN w[q] ELSE F[n-1])
+  IN F[Len(name)]
 
 TrieLookupIn(name, w, ns, r, b) ==
   IF ~L("blacklist_ignored") /\ TrieBlacklistedIn(name, b) THEN NoConf
@@ -304,7 +305,9 @@ TypeOK == /\ nodes \subseteq Names /\ bt \subseteq Names /\ gskip \subseteq Name
 \*  package and either beartype_all is active or the module or one of its dotted ancestors
 \*  was registered; the configuration applied is that of the nearest registered ancestor,
 \*  else beartype_all's"  -- for every name over the basenames
-LookupOK == \A name \in Names : TrieLookup(name) = IdealLookup(name) /\ proj[name] = TrieLookup(name)
+\* (proj is, by construction of every action, the trie lookup of the current registry)
+LookupOK == \A name \in Names : proj[name] = IdealLookup(name)
+ProjOK   == \A name \in Names : proj[name] = TrieLookup(name)
 
 \* the path hook is installed exactly while something is registered
 HookOK == hook <=> (ActiveAll # NoConf \/ \E p \in Names : greg[p] # NoConf)
